@@ -39,7 +39,39 @@ def bounds(tier, seed):
     return {"features": [1, 2, 3, 4] + ([5] if tier == "thorough" else []), "hidden": [1, 2, 3, 4, 5, 6], "blocks": [0, 1, 2], "multiplier": [1, 2, 3], "random_mask_cap_per_architecture": 300 if tier == "quick" else 3000}
 
 
+_CLS_BASE = {}
+
+
+def _reset_class_state():
+    """class-level containers of the MADE building blocks (a memo of masks, say) are state shared by all networks of a process:
+    every construction starts from what they held when first looked at, so that a finding does not depend on what was built before"""
+    import copy as _copy
+    import inspect
+
+    for mod_ in (made_tr, made_nde):
+        for cname, cls in inspect.getmembers(mod_, inspect.isclass):
+            if cls.__module__ != mod_.__name__:
+                continue
+            for k, v in list(vars(cls).items()):
+                if k.startswith("__") or not isinstance(v, (dict, list, set)):
+                    continue
+                key = (mod_.__name__, cname, k)
+                if key not in _CLS_BASE:
+                    _CLS_BASE[key] = _copy.deepcopy(v)
+                    continue
+                base = _CLS_BASE[key]
+                if isinstance(v, dict):
+                    v.clear()
+                    v.update(_copy.deepcopy(base))
+                elif isinstance(v, list):
+                    v[:] = _copy.deepcopy(base)
+                else:
+                    v.clear()
+                    v.update(_copy.deepcopy(base))
+
+
 def build(copy, a, activation=F.relu):
+    _reset_class_state()
     mod = made_tr if copy == "transforms" else made_nde
     kw = dict(features=a["F"], hidden_features=a["H"], context_features=2 if a["ctx"] else None, num_blocks=a["blocks"], use_residual_blocks=a["residual"], random_mask=a["random"],
               activation=activation, dropout_probability=a.get("dropout", 0.0), use_batch_norm=a["bn"])
